@@ -4,6 +4,7 @@
 use crate::elem::*;
 use matreex::index::AsIndex;
 use matreex::iter::ExactSizeDoubleEndedIterator;
+#[cfg(feature = "parallel")]
 use matreex::parallel::*;
 use matreex::{Error, Index, Matrix, Order, WrappingIndex, col_vec, matrix, row_vec};
 use std::cell::{Cell, RefCell};
@@ -431,6 +432,7 @@ pub fn coherence<T: Elem>(m: &Matrix<T>) -> Result<(), String> {
 pub struct Ctx {
     pub threads: usize,
     pub delay: i64,
+    #[cfg(feature = "parallel")]
     pub tpool: Option<rayon::ThreadPool>,
 }
 
@@ -1163,6 +1165,7 @@ fn exec<T: Elem>(pool: &mut Pool<T>, op: &WireOp, ctx: &Ctx) -> String {
             run_single(m.into_iter_elements_with_index(), script, |(ix, e): (Index, T)| idx_item::<T>(ix, e.show()))
         }
         // ----- parallel -----
+        #[cfg(feature = "parallel")]
         (120, [s, f]) => {
             need!(pool, *s);
             let f = *f as i64;
@@ -1177,6 +1180,7 @@ fn exec<T: Elem>(pool: &mut Pool<T>, op: &WireOp, ctx: &Ctx) -> String {
             });
             ok
         }
+        #[cfg(feature = "parallel")]
         (121, [d, s, f]) => {
             dest!(*d);
             need!(pool, *s);
@@ -1191,6 +1195,7 @@ fn exec<T: Elem>(pool: &mut Pool<T>, op: &WireOp, ctx: &Ctx) -> String {
             });
             store!(*d, r)
         }
+        #[cfg(feature = "parallel")]
         (122, [d, s, f]) => {
             dest!(*d);
             need!(pool, *s);
@@ -1205,6 +1210,7 @@ fn exec<T: Elem>(pool: &mut Pool<T>, op: &WireOp, ctx: &Ctx) -> String {
             });
             store!(*d, r)
         }
+        #[cfg(feature = "parallel")]
         (123, [s]) => {
             need!(pool, *s);
             let m = pool[us(*s)].as_ref().unwrap();
@@ -1219,6 +1225,7 @@ fn exec<T: Elem>(pool: &mut Pool<T>, op: &WireOp, ctx: &Ctx) -> String {
             });
             format!("[{}]", v.join(","))
         }
+        #[cfg(feature = "parallel")]
         (124, [s, f]) => {
             need!(pool, *s);
             let f = *f as i64;
@@ -1235,12 +1242,14 @@ fn exec<T: Elem>(pool: &mut Pool<T>, op: &WireOp, ctx: &Ctx) -> String {
             });
             format!("[{}]", v.join(","))
         }
+        #[cfg(feature = "parallel")]
         (125, [s]) => {
             need!(pool, *s);
             let m = pool[us(*s)].take().unwrap();
             let v: Vec<String> = par(ctx, move || m.into_par_iter_elements().map(|e| e.show()).collect());
             format!("[{}]", v.join(","))
         }
+        #[cfg(feature = "parallel")]
         (126, [s]) => {
             need!(pool, *s);
             let m = pool[us(*s)].as_ref().unwrap();
@@ -1255,6 +1264,7 @@ fn exec<T: Elem>(pool: &mut Pool<T>, op: &WireOp, ctx: &Ctx) -> String {
             });
             format!("[{}]", v.join(","))
         }
+        #[cfg(feature = "parallel")]
         (127, [s, f]) => {
             need!(pool, *s);
             let f = *f as i64;
@@ -1271,6 +1281,7 @@ fn exec<T: Elem>(pool: &mut Pool<T>, op: &WireOp, ctx: &Ctx) -> String {
             });
             format!("[{}]", v.join(","))
         }
+        #[cfg(feature = "parallel")]
         (128, [s]) => {
             need!(pool, *s);
             let m = pool[us(*s)].take().unwrap();
@@ -1347,6 +1358,7 @@ fn exec<T: Elem>(pool: &mut Pool<T>, op: &WireOp, ctx: &Ctx) -> String {
     }
 }
 
+#[cfg(feature = "parallel")]
 fn par<R: Send>(ctx: &Ctx, f: impl FnOnce() -> R + Send) -> R {
     match &ctx.tpool {
         Some(tp) => tp.install(f),
